@@ -39,7 +39,7 @@ def c07_program(rng: random.Random, tier="quick"):
     prog = []
     n_txn = rng.choice([1, 2, 3, 4, 6])
     fault = None
-    mode = rng.choices(["plain", "abortable", "replace", "kill", "zombie"], [6, 2, 1, 1, 1])[0]
+    mode = rng.choices(["plain", "abortable", "replace", "kill", "zombie", "fatal_produce"], [6, 2, 1, 1, 1, 1])[0]
     special_at = rng.randrange(n_txn)
     for ti in range(n_txn):
         use_ctx = rng.random() < 0.15
@@ -72,11 +72,21 @@ def c07_program(rng: random.Random, tier="quick"):
             prog += ["kill", "replace", "B.begin", f"B.send:{rng.randrange(3)}", "B.commit"]
             break
         prog.append(rng.choice(["commit", "commit", "finish", "abort"]) if mode != "abortable" else rng.choice(["finish", "finish", "abort"]))
+    if mode == "fatal_produce":
+        # a Produce request of a transaction that spans several partition leaders is rejected with a FATAL error while the
+        # commit / abort that follows at once is already waiting for the batches: nothing may be written afterwards
+        prog = []
+        for ti in range(rng.choice([1, 2])):
+            prog += ["begin", f"burst:{rng.choice(['0+1+2', '0+1', '1+2'])}:{rng.choice([3, 6])}"]
+            if rng.random() < 0.3:
+                prog.append(f"offsets:{rng.randint(1, 500)}")
+            prog.append(rng.choice(["commit", "commit", "finish", "abort"]))
+        fault = {"api": "Produce", "nth": rng.choice([1, 2, 3]), "kind": "error", "code": rng.choice(T.FATAL["Produce"])}
     if mode == "abortable":
         api = rng.choice(sorted(T.ABORTABLE))
         fault = {"api": api, "nth": rng.choice([1, 2, 3]), "kind": "error", "code": T.ABORTABLE[api][0]}
     return {"seed": rng.randrange(2 ** 31), "program": prog, "fault": fault, "mode": mode,
-            "fault_p": rng.choice([0.0, 0.1, 0.25, 0.4]) if mode in ("plain", "replace", "kill", "zombie") else rng.choice([0.0, 0.1]),
+            "fault_p": rng.choice([0.0, 0.1, 0.25, 0.4]) if mode in ("plain", "replace", "kill", "zombie") else (0.0 if mode == "fatal_produce" else rng.choice([0.0, 0.1])),
             "n_parts": 3, "request_timeout_ms": rng.choice([1500, 3000]), "retry_backoff_ms": rng.choice([50, 100]),
             "settle": rng.random() < 0.3, "marker_delay": rng.choice([0.0, 0.0, 0.05, 0.3]), "linger_ms": rng.choice([0, 0, 20]),
             "max_batch_size": rng.choice([200, 600, 16384]), "coordinator_moves": rng.random() < 0.3}
